@@ -25,6 +25,8 @@ class YowProfilesProtocolLayer(YowProtocolLayer):
             self._sendIq(entity, self.onGetStatusesResult, self.onGetStatusesError)
         elif isinstance(entity, SetStatusIqProtocolEntity):
             self._sendIq(entity, self.onSetStatusResult, self.onSetStatusError)
+        elif isinstance(entity, UnregisterIqProtocolEntity):
+            self._sendIq(entity, self.onUnregisterResult, self.onUnregisterError)
 
 
     def recvIq(self, node):
@@ -46,6 +48,12 @@ class YowProfilesProtocolLayer(YowProtocolLayer):
         self.toUpper(ResultIqProtocolEntity.fromProtocolTreeNode(resultNode))
 
     def onSetStatusError(self, errorNode, originalIqRequestEntity):
+        self.toUpper(ErrorIqProtocolEntity.fromProtocolTreeNode(errorNode))
+
+    def onUnregisterResult(self, resultNode, originIqRequestEntity):
+        self.toUpper(ResultIqProtocolEntity.fromProtocolTreeNode(resultNode))
+
+    def onUnregisterError(self, errorNode, originalIqRequestEntity):
         self.toUpper(ErrorIqProtocolEntity.fromProtocolTreeNode(errorNode))
 
     def onGetPictureResult(self, resultNode, originalIqRequestEntity):
